@@ -65,6 +65,19 @@ def handle (op : String) (args : List String) : Option String :=
     let sum : Int → Bytes → Option Bytes := fun t' x =>
       if sm = "none" then none else if t' = t ∧ x = data then unhex sm else none
     some (if Hash.verifyData sum ⟨t, d⟩ data then "ok 1" else "ok 0")
+  | "hashCompare" => do
+    -- a / b = "nil" (nil pointer) or "<int32 type>:<hex digest>"
+    let parseH : String → Option (Option Hash) := fun v =>
+      if v = "nil" then some none else
+      match v.splitOn ":" with
+      | [t, d] => do
+        let ti ← t.toInt?
+        let db ← unhex d
+        some (some ⟨ti, db⟩)
+      | _ => none
+    let a ← (← kv args "a") |> parseH
+    let b ← (← kv args "b") |> parseH
+    some (if Hash.compareOpt a b then "ok 1" else "ok 0")
   | "hashLen" => do
     let t ← kvInt args "t"
     some s!"ok {hashLen t} {if hashTypeValid t then 1 else 0} {if hashTypeSupported t then 1 else 0}"
